@@ -2,7 +2,7 @@
 # Hdl21 Built-In Generators Library 
 """
 
-from copy import deepcopy
+from copy import deepcopy, copy
 from typing import Tuple, Union
 
 # This is about the one place within the library that we use the global, named import `hdl21 as h`,
@@ -162,9 +162,9 @@ def _fresh_name(m: h.Module, name: str) -> str:
 def _copy_port(p: Union[h.Signal, h.BundleInstance]) -> Union[h.Signal, h.BundleInstance]:
     """Copy a Signal or Bundle valued port, for use as the same-named port of another Module."""
     if isinstance(p, h.BundleInstance):
-        return h.BundleInstance(
-            name=p.name, of=p.of, port=True, flipped=p.flipped, role=p.role
-        )
+        cp = copy(p)  # (keeps its description and source / destination roles too)
+        cp.port = True
+        return cp
     return deepcopy(p)
 
 
